@@ -166,6 +166,11 @@ func iotaGoDir() string {
 	if m == nil {
 		die("iota.go version not found in go.mod")
 	}
+	return filepath.Join(modCache(), "github.com", "iotaledger", "iota.go@"+string(m[1]))
+}
+
+// modCache returns the module cache directory.
+func modCache() string {
 	cache := os.Getenv("GOMODCACHE")
 	if cache == "" {
 		gp := os.Getenv("GOPATH")
@@ -174,7 +179,7 @@ func iotaGoDir() string {
 		}
 		cache = filepath.Join(gp, "pkg", "mod")
 	}
-	return filepath.Join(cache, "github.com", "iotaledger", "iota.go@"+string(m[1]))
+	return cache
 }
 
 // ---------------------------------------------------------------- constant evaluation
